@@ -108,6 +108,8 @@ def place(rng, centre, kind, rmin=0.2, rmax=2.5):
         d = rand_dir(rng)
         return [centre[i] + r * d[i] for i in range(3)]
     r = math.exp(rng.uniform(math.log(rmin), math.log(rmax)))
+    if kind == "zaxis":    # on the z axis through the ECP: polar cosines are +-1 up to rounding, azimuths undefined
+        return [centre[0], centre[1], centre[2] + rng.choice([-1, 1]) * math.exp(rng.uniform(math.log(rmin), math.log(rmax)))]
     if kind == "axis":
         ax = rng.randrange(3); s = rng.choice([-1, 1])
         d = [0.0, 0.0, 0.0]; d[ax] = s
